@@ -698,7 +698,17 @@ class Library:
                 return one(x)
             raise OutOfReach("np.sign form")
 
-        return {"sign": np_sign, "newaxis": None, "diag": np_diag, "where": np_where, "prod": np_prod, "argmax": np_argmax, "isclose": np_isclose, "mean": np_mean, "clip": np_clip, "block": np_block, "array": np_array, "roll": np_roll, "zeros_like": np_zeros_like, "empty_like": np_zeros_like, "empty": np_empty,
+        def np_dot(a, b):
+            # inner product of two real 1-D arrays of the same concrete length (other forms: not modelled)
+            if isinstance(a, ix.IArr) and isinstance(b, ix.IArr) and len(a.vshape) == 1 and len(b.vshape) == 1 and isinstance(a.vshape[0], int) \
+                    and a.vshape[0] == b.vshape[0] and not (a.quat or a.cplx or a.hcell or b.quat or b.cplx or b.hcell):
+                tot = Fraction(0)
+                for i in range(a.vshape[0]):
+                    tot = tot + a.at(i) * b.at(i)
+                return tot
+            raise OutOfReach("np.dot form")
+
+        return {"dot": np_dot, "sign": np_sign, "newaxis": None, "diag": np_diag, "where": np_where, "prod": np_prod, "argmax": np_argmax, "isclose": np_isclose, "mean": np_mean, "clip": np_clip, "block": np_block, "array": np_array, "roll": np_roll, "zeros_like": np_zeros_like, "empty_like": np_zeros_like, "empty": np_empty,
                 "concatenate": np_concatenate, "real": np_real, "imag": np_imag, "any": np_any, "allclose": np_allclose}
 
     # -- FFT (axiomatised): fft2 of a real array is an uninterpreted complex function of the frequency;
